@@ -16,6 +16,11 @@ together with the call token of a stream that m's OWN /init legitimately opened 
 with no call token at all; every m != m0 must refuse it and run no user code (the cursor has no method binding of its
 own - only the call it resolves to ties it to a method).
 
+Third item: the worker that gets the foreign request has already served 1..2 legitimate turns of the minting method
+from the echoed tokens without holding the entry /init warmed (second worker sharing the token key, or the same worker
+after eviction from a 1-entry cache) - the call was rebuilt from the call token on the miss path and cached; the other
+method's endpoint must still refuse the stream's tokens there.
+
 History: the first run found the genuine defect this property is about (no method name in either token
 or in the cache key; fixed in the repository, signature C13:cross-method:accepted).  Replay: real
 multi-method service through the sync HTTP client - only a request that provably went to the other
@@ -33,7 +38,7 @@ from vgi_rpc.rpc import AuthContext
 
 PROPERTY = "C13"
 ENCODED = list(tc.DISPATCH_FUNCS) + [st._CallStateCache.get, st._CallStateCache.put]
-BOUNDS = "cursor accompanied by its own call token, by the call token of a stream the target method itself opened, or by none; 8 stream methods (a,b: same state class + call state; c,d: another class; p: producer; u: union; two 60-character names sharing a 54-character prefix) x 8 endpoints; the method binding itself for ALL method names (SMT); 0..1 turns before the switch, continuation or cancel, warm or cold cache, one identity"
+BOUNDS = "cursor accompanied by its own call token, by the call token of a stream the target method itself opened, or by none; 8 stream methods (a,b: same state class + call state; c,d: another class; p: producer; u: union; two 60-character names sharing a 54-character prefix) x 8 endpoints; the method binding itself for ALL method names (SMT); 0..1 turns before the switch, continuation or cancel, warm or cold cache (cold also after the cold worker served 1..2 own turns from the echoed tokens: second worker with the same key, or eviction from a 1-entry cache), one identity"
 OUTSIDE = "the per-turn helpers (_run_http_exchange_turn/_run_http_producer_turn: replaced by a recorder that refreshes the cursor through the real _mint_cursor_token); Arrow decoding of a foreign state class (fake: decoding fails iff the class differs); unknown-method 404 (resource layer)"
 ASSUMPTIONS = [*tc.TOKEN_STUBS, *tc.DISPATCH_STUBS, "a state class decodes exactly the cursor payloads of its own class (stands for Arrow schema compatibility)"]
 
@@ -379,6 +384,161 @@ def foreign_cursor_is_refused_whatever_call_token_accompanies_it(m0: int, m: int
     served, processed, err = _run(m0, m, turns, cancel, warm, pair)
     if processed == ["own-endpoint turn failed"]:
         return False  # the minting method's own endpoint refused a regular turn
+    return (not served) and not processed and err is not None and 400 <= err[0] < 500  # refused as a client error, no user code ran
+
+
+# ---------------------------------------------------------------------------
+# the worker has already served the minting method from the echoed tokens (call rebuilt on the miss path)
+# ---------------------------------------------------------------------------
+# The items above present the foreign pair as the FIRST request a worker sees for that call.  Here the worker that gets
+# the foreign request does not hold the entry /init warmed (a second worker sharing the token key, or the same worker
+# after the entry was evicted) and has first served 1..2 legitimate turns / a legitimate cancel probe of the minting
+# method from the echoed tokens - which rebuilds the call from the call token and caches it.  Whatever that worker
+# remembers about the call afterwards, m != m0 must still refuse the stream's tokens.
+
+SIG_REBUILT = "C13:cross-method:accepted-after-own-turn-on-cold-worker"
+_REBUILT_OWN = pick(2, 3)  # legitimate turns the cold worker serves first: 1.._REBUILT_OWN
+_ROUTE_TEXT = ("a second worker sharing the token key", "the same worker after another /init evicted the call's cache entry (1-entry cache)")
+
+
+def _run_rebuilt(m0: int, m: int, route: int, own: int, cancel: bool) -> tuple:
+    """-> (served, processed_events, error_info).  ``route``: 0 second worker (own, empty cache; same key and server),
+    1 same worker with a 1-entry cache whose entry for the call is evicted by a later /init of m."""
+    tc.reset(now=100)
+    srv = tc.FakeServer(_Impl(), {name: tc.MethodInfo(name) for name in _METHODS})
+    app1 = tc.FakeApp(srv, dict(_STATE_TYPES), b"server-key", 3600, 16 if route == 0 else 1)
+    md = tc.do_init(app1, _METHODS[m0], _AUTH)
+    cur, call = md[tc.STATE_KEY], md[tc.CALL_STATE_KEY]
+    if route == 0:
+        app2 = tc.FakeApp(srv, dict(_STATE_TYPES), b"server-key", 3600, 16)
+    else:
+        app2 = app1
+        tc.do_init(app1, _METHODS[m], _AUTH)  # another stream of the same caller: evicts the 1-entry cache
+    for _ in range(own):
+        tc.HOLD["now"] += 1
+        try:
+            r = tc.do_exchange(app2, _METHODS[m0], _AUTH, {tc.STATE_KEY: cur, tc.CALL_STATE_KEY: call})
+        except Exception as e:  # noqa: BLE001
+            return False, ["own-endpoint turn failed"], tc.http_error_info(e) or (0, repr(e))
+        cur = r[tc.STATE_KEY]
+    del tc.LOG[:]
+    tc.HOLD["now"] += 1
+    req = {tc.STATE_KEY: cur, tc.CALL_STATE_KEY: call}
+    if cancel:
+        req[tc.CANCEL_KEY] = b"1"
+    err = None
+    try:
+        tc.do_exchange(app2, _METHODS[m], _AUTH, req)
+        served = True
+    except Exception as e:  # noqa: BLE001
+        served = False
+        err = tc.http_error_info(e)
+        if err is None:
+            raise
+    return served, [ev for ev in tc.LOG if ev[0] in ("turn", "on_cancel")], err
+
+
+def _e2e_rebuilt(m0: str, m: str, route: int, own: int, cancel: bool) -> tuple:
+    """The same history through the public HTTP stack: /{m0}/init on worker 1, ``own`` regular turns on the worker
+    that lost / never had the cache entry, then the client's current tokens POSTed to /{m}/exchange there."""
+    from vgi_rpc.http import http_connect
+    from vgi_rpc.http._testing import make_sync_client
+
+    del E2E_LOG[:]
+    w1 = make_sync_client(RpcServer(E2EService, E2EImpl()), token_key=b"k" * 32, call_state_cache_entries=4096 if route == 0 else 1)
+    w2 = make_sync_client(RpcServer(E2EService, E2EImpl()), token_key=b"k" * 32, call_state_cache_entries=4096) if route == 0 else w1
+
+    class _Routing:
+        """The client's HTTP connection; the load balancer sends it to ``inner``."""
+
+        def __init__(self) -> None:
+            self.inner = w1
+            self.urls: list = []
+
+        def post(self, url, **kw):  # type: ignore[no-untyped-def]
+            self.urls.append(url)
+            return self.inner.post(url, **kw)
+
+        def __getattr__(self, name):  # type: ignore[no-untyped-def]
+            return getattr(self.inner, name)
+
+    client = _Routing()
+    batch = AnnotatedBatch.from_pydict({"x": [1]}, _E2E_IN)
+    try:
+        with http_connect(E2EService, client=client) as proxy:
+            session = getattr(proxy, m0)()
+            if route == 0:
+                client.inner = w2
+            else:
+                getattr(proxy, m)()  # another stream of the same caller; the 1-entry cache now holds that one
+            for _ in range(own):
+                try:
+                    session.exchange(batch)
+                except Exception as e:  # noqa: BLE001
+                    return True, f"POST /{m0}/exchange on {_ROUTE_TEXT[route]} refused a regular turn of the stream /{m0}/init opened: {type(e).__name__}: {str(e)[:120]}"
+            session._method = m  # the same tokens, POSTed to /{m}/exchange
+            n0, u0 = len(E2E_LOG), len(client.urls)
+
+            def at_foreign_endpoint() -> bool:
+                return bool(client.urls[u0:]) and all(u.rstrip("/").endswith(f"/{m}/exchange") for u in client.urls[u0:])
+
+            what = f"the tokens of the stream /{m0}/init opened, on {_ROUTE_TEXT[route]} that had served {own} regular turn(s) of /{m0}/exchange from them"
+            if cancel:
+                session.cancel()
+                ran = [e for e in E2E_LOG[n0:] if e[0] == "on_cancel"]
+                return bool(ran) and at_foreign_endpoint(), f"POST /{m}/exchange (cancel) with {what} ran on_cancel on /{m0}'s state: {ran}"
+            try:
+                out = session.exchange(batch)
+            except Exception as e:  # noqa: BLE001
+                return False, f"rejected: {type(e).__name__}: {str(e)[:120]}"
+            ran = [e for e in E2E_LOG[n0:] if e[0] == "process"]
+            return bool(ran) and at_foreign_endpoint(), (
+                f"POST {client.urls[-1] if client.urls else '?'} with {what} was served: {out.batch.to_pydict()} "
+                f"(server log {E2E_LOG[n0:]}: method {m!r} processed the state that /{m0}/init produced)"
+            )
+    finally:
+        w1.close()
+        if w2 is not w1:
+            w2.close()
+
+
+def _replay_rebuilt(args: dict) -> str | None:
+    m0, m, route, own = _METHODS[args["m0"]], _METHODS[args["m"]], args["route"], args["own"]
+    if m0 == m:
+        return None
+    if m0 in E2EService.__dict__ and m in E2EService.__dict__:
+        served, how = _e2e_rebuilt(m0, m, route, own, args["cancel"])
+        return how if served else None
+    # a method the e2e service lacks (producer): the real _unpack_and_recover_state of two workers over real crypto
+    with tc.RealWorld(_REAL_TYPES, b"k" * 32, 3600, 16 if route == 0 else 1) as w1:
+        s = w1.init(m0, _AUTH, producer=(m0 == "p"))
+        with tc.RealWorld(_REAL_TYPES, b"k" * 32, 3600, 16) as w_other:
+            w2 = w_other if route == 0 else w1
+            if route == 1:
+                w1.init(m, _AUTH, producer=(m == "p"))
+            for _ in range(own):
+                own_got = w2.unpack(m0, _AUTH, s["cursor"], s["call"])
+                if own_got[0] != "ok":
+                    return f"/{m0}/exchange on {_ROUTE_TEXT[route]} rejects its own stream: {own_got!r}"
+            got = w2.unpack(m, _AUTH, s["cursor"], s["call"])
+    if got[0] == "ok":
+        return f"_unpack_and_recover_state for endpoint {m!r} accepted the tokens minted by {m0!r} on {_ROUTE_TEXT[route]} after {own} own turn(s) there: state {got[1]!r}"
+    return None
+
+
+@cond(q=150, t=400, stubs=[*tc.TOKEN_STUBS, *tc.DISPATCH_STUBS], encoded=ENCODED,
+      bound="8 x 7 ordered pairs of distinct stream methods; /init on worker 1, then 1..%d regular turns of the minting method served from the echoed tokens by a worker that does not hold the /init-warmed "
+      "cache entry (second worker sharing the token key, or the same worker after a later /init evicted it from a 1-entry cache), then the current tokens at the other method's endpoint there; continuation or cancel" % _REBUILT_OWN,
+      replay=_replay_rebuilt, signature=lambda a, c: SIG_REBUILT)
+def foreign_endpoint_refuses_tokens_after_the_worker_served_their_own_method(m0: int, m: int, route: int, own: int, cancel: bool) -> bool:
+    """
+    pre: 0 <= m0 <= 7 and 0 <= m <= 7 and m0 != m and 0 <= route <= 1 and 1 <= own <= _REBUILT_OWN
+    post: _
+    """
+    m0, m, route, own = _pick(m0, 8), _pick(m, 8), _pick(route, 2), _pick(own, 4)
+    served, processed, err = _run_rebuilt(m0, m, route, own, cancel)
+    if processed == ["own-endpoint turn failed"]:
+        return False  # the minting method's own endpoint refused a regular turn on the cold worker
     return (not served) and not processed and err is not None and 400 <= err[0] < 500  # refused as a client error, no user code ran
 
 
